@@ -72,6 +72,7 @@ def reader_header_name(r):
 
 def run(chk):
     repo = chk.repo
+    cm.schema(chk, repo, "C09")
     v = FV(repo, OVF + "_to_ovf", self_type=FIELD)
     r = FV(repo, OVF + "_from_ovf", self_type=FIELD)
     d1_header(chk, repo, v, r)
